@@ -882,6 +882,7 @@ def battery():
         M("platform report dropped", SC, "        if switch:\n            self.process_switch_obj(switch, state, logical, timestamp)\n        else:", "        if switch:\n            pass\n        else:", "FWD-3"),
         M("by_num swaps state and logical", SC, "self.process_switch_obj(switch, state, logical, timestamp)", "self.process_switch_obj(switch, logical, state, timestamp)", "FWD-3"),
         M("only the first matching registration removed", SC, "                self.registered_switches[switch][state].remove(entry)\n", "                self.registered_switches[switch][state].remove(entry)\n                break\n", "PAIR-3"),
+        M("waiter's immediate answer ignores the hold time", SC, "                if self.is_state(switch, state, ms):", "                if self.is_state(switch, state):", "DROP-0"),
         M("remove by key does nothing", SC, "        self.remove_switch_handler_obj(switch_handler.switch_name, switch_handler.callback, switch_handler.state,\n                                       switch_handler.ms)\n\n    def remove_switch_handler_by_keys", "        pass\n\n    def remove_switch_handler_by_keys", "FWD-3"),
         M("remove by key drops ms", SC, "switch_handler.state,\n                                       switch_handler.ms)", "switch_handler.state)", "FWD-3", nth=0),
         M("Switch.remove_handler swaps state/ms", SW, "remove_switch_handler_obj(\n            self, callback, state, ms)", "remove_switch_handler_obj(\n            self, callback, ms, state)", "FWD-3"),
